@@ -86,7 +86,7 @@ var pushTargets = []pushTarget{{Host, NS, Model}, {Host, "ns2", Model}, {"h2.tes
 // does not find the blob there and answers 202.
 var pushFroms = []struct{ From, Repo string }{
 	{Host + "/" + NS + "/" + Model + ":" + Tag, NS + "/" + Model}, // the first target's own name
-	{Host + "/ns2/" + Model + ":" + Tag, "ns2/" + Model},           // the second target's name
+	{Host + "/ns2/" + Model + ":" + Tag, "ns2/" + Model},          // the second target's name
 	{"base:latest", "library/base"},
 	{"h2.test/ns1/base:7b", "ns1/base"},
 	{"/models/blobs/sha256-" + strings.Repeat("0", 64), "library/"}, // created from a GGUF file: From is a path
@@ -157,7 +157,7 @@ func GenPush(t *rapid.T, via string) PushCase {
 	if via == "legacy" && rapid.IntRange(0, 9).Draw(t, "history") >= 4 {
 		// a history: 1-3 consecutive pushes in one process of models that share layer digests, to the same or to other
 		// repositories, some layers carrying From (cross-repository mount)
-		kinds = append(kinds, "mount", "mount")
+		kinds = append(kinds, "mount", "mount", "mount")
 		np := rapid.SampledFrom([]int{1, 2, 2, 2, 3, 3}).Draw(t, "npushes")
 		for si := 0; si < np; si++ {
 			var st PushStep
@@ -863,6 +863,8 @@ func (r *PushReg) manifestPut(req *http.Request, body []byte) (*http.Response, e
 				state = "a request about it is still being answered"
 			} else if a.headMiss[h] && a.counts[fmt.Sprintf("start:%d", i)] == 0 {
 				state = "its HEAD was answered 404 and no upload was started"
+			} else if a.counts[fmt.Sprintf("start:%d", i)] > 0 {
+				state = "an upload session was opened for it (202) but nothing was committed"
 			}
 			slug := ""
 			if r.c.Via == "" && r.Version.Config != nil && h == r.Version.Config.Hex && state == "no request about it was answered yet" {
